@@ -1,205 +1,1381 @@
-"""C07 bounded stand-in: refactoring results of the real API on small programs (LF/CRLF, tabs/spaces, with/without
-final newline): the diff reproduces get_new_code(), nothing is written before apply(), apply() writes the announced
-contents, the result still compiles and behaves the same, only RefactoringError escapes."""
-import itertools
+"""C07 bounded stand-in: refactoring results of the real API.
+
+Sources: generated programs (functions, classes with bound/static/class methods, multi-line bracketed expressions
+with comments, semicolons, backslash continuations, unicode identifiers, tiny and empty sources, multi-file
+projects with modules and packages) and the corpus of the tree under test (the input halves of test/refactor/*.py),
+each rendered with spaces/tabs, LF/CRLF, with/without final newline, ascii/unicode identifiers.
+Requests: rename, inline, extract_variable, extract_function at token positions, at every expression node and
+statement run of Python's own ast (as explicit ranges, with until_line only, until_column only, or both), at random
+ranges and at positions outside the source; inspected only or applied.
+Oracles (all from the property text): a strict unified-diff parser/applier, byte snapshots of the project
+directory before/after, textual inversion of the rewrite (rename: new.replace(new_name, old) == source; extract:
+source == new code minus the generated definition with the extracted range put back), Python's tokenize for comments
+and logical lines, execution of the program before/after, and the position arithmetic of the source text for the
+exception contract.
+
+SAFETY: Refactoring.apply() rewrites/renames real files.  A rename of a name that lives in the standard library
+(`import os` -> os.py) would rename files of the Python installation.  Therefore (1) the generated programs only
+import their own files (checked at start), (2) corpus inputs that import anything but import_tree get no
+rename/inline requests, (3) guarded_apply() is the only caller of apply() and refuses any result whose changed files
+or renames do not lie inside the scratch project directory under STANDIN_TMP."""
+import ast
+import contextlib
+import io
+import keyword
+import locale
+import multiprocessing
 import os
+import random
 import re
 import shutil
+import signal
 import subprocess
 import sys
 import tempfile
+import tokenize
 import traceback
 
-BASE = [
-    # (source with {I} = one indentation unit, refactoring, (line, col) finder text, kwargs)
-    ('def f():\n{I}a = 1 + 2\n{I}b = a * 3\n{I}return b\nprint(f())', 'inline', 'a = 1', {}),
-    ('def f():\n{I}if True:\n{I}{I}val = 10\n{I}{I}return val + 1\n{I}return 0\nprint(f())', 'inline', 'val = 10', {}),
-    ('x = 5\ny = x + x\nprint(y)', 'inline', 'x = 5', {}),
-    ('def f():\n{I}return v\nv = 3', 'inline', 'v = 3', {}),
-    ('def f():\n{I}return w + 1\nprint(1)\nw = 3', 'inline', 'w = 3', {}),
-    ('def g(n):\n{I}return n * 2 + 1\nprint(g(3))', 'rename', 'n):', {'new_name': 'count'}),
-    ('total = 1\n# comment\n\nprint(total)  # trailing\nlast = total', 'rename', 'total = 1', {'new_name': 'summe'}),
-    ('def h(a, b):\n{I}return (a + b) * 2\nprint(h(1, 2))', 'extract_variable', '(a + b)',
-     {'new_name': 'tmp', 'len': 7}),
-    ('def k(a):\n{I}z = a + 1\n{I}return z * 2\nprint(k(2))', 'extract_function', 'a + 1', {'new_name': 'helper', 'len': 5}),
+# ---- violation labels (the first block is the original set and must stay stable) -------------------------------
+L_OTHER_EXC = 'refactoring request raised something else than RefactoringError'
+L_DISK_BEFORE = 'file changed on disk before apply()'
+L_DIFF_NEW = 'get_diff() does not transform the original into get_new_code()'
+L_REF_DIFF = 'Refactoring.get_diff() is not renames + file diffs'
+L_EOL = 'line endings are not preserved'
+L_FINAL_NL = 'final newline state is not preserved'
+L_APPLY = 'apply() did not write exactly get_new_code()'
+L_BEHAV = 'refactored program no longer compiles or behaves differently'
+L_INSPECT = 'inspecting the refactoring raised'
+L_HDR = 'diff header does not name the announced target path'
+L_AT_PATH = 'after apply() a changed file is not at its announced path with the announced text'
+L_RENAME = 'announced rename not performed'
+L_SIBLING = 'a sibling sharing the name prefix was moved'
+L_PKG = 'package rename raised'
+# labels of the widened check
+L_VALUEERR = 'ValueError although every given position is inside the source'
+L_MALFORMED = 'get_diff() is not a well-formed unified diff'
+L_FILES = 'get_changed_files()/get_renames() do not name exactly the files the diff touches'
+L_UNTOUCHED = 'text outside the rewritten nodes was not preserved'
+L_COMMENT = 'a comment of the original source is missing from the new code'
+L_GENERATED = 'the generated definition does not hold the extracted code'
+L_UNANNOUNCED = 'apply() changed a file that was not announced'
+L_APPLY_EXC = 'apply() raised'
+L_NOPATH = 'apply() of a Script without path did not fail with RefactoringError'
+L_UNSTABLE = 'get_diff()/get_new_code() of one result changed between two calls'
+L_HUNK_EOF = 'hunk header of get_diff() counts the empty pseudo line after the final newline'
+
+KINDS = ('rename', 'inline', 'extract_variable', 'extract_function')
+
+# ---- generated programs ---------------------------------------------------------------------------------------
+# {I} = one indentation unit.  Every program is deterministic and prints values that depend on all its statements.
+# 'behav' = refactorings whose every successful result must keep the behaviour (program designed accordingly:
+# inline needs immutable single-assignment values, extract needs pure total expressions).
+PROGRAMS = [
+    {'name': 'nested_suites', 'behav': KINDS, 'files': {'prog.py': (
+        'def f(a):\n{I}val = a + 1  # c1\n{I}if a:\n{I}{I}y = val * 2; z = 3\n{I}else:\n{I}{I}y = 0; z = val\n'
+        '{I}return y + z\n\n\ndef f2():\n{I}if True:\n{I}{I}num = 10\n{I}{I}return num + 1\n{I}return 0\n'
+        'print(f(1), f(0), f2())')}},
+    {'name': 'klass', 'behav': KINDS, 'files': {'prog.py': (
+        'class K:\n{I}"""doc"""\n{I}base = 10\n\n{I}def __init__(self, n):\n{I}{I}self.n = n\n\n'
+        '{I}def m(self, a):\n{I}{I}t = self.n + a\n{I}{I}return t * self.m2()\n\n'
+        '{I}def m2(self):\n{I}{I}return K.base + 3\n\n'
+        '{I}@staticmethod\n{I}def s(u):\n{I}{I}w = u * 2\n{I}{I}return w + 1\n\n'
+        '{I}@classmethod\n{I}def c(cls, u):\n{I}{I}r = cls.base - u\n{I}{I}return r\n\n'
+        'k = K(2)\nprint(k.m(1), K.s(4), K.c(5), k.n)')}},
+    {'name': 'multiline_brackets', 'behav': KINDS, 'files': {'prog.py': (
+        'def g(v, w=0):\n{I}return v + w\n\n'
+        'def h(a):\n{I}x = g(\n{I}{I}# keep: explains the argument\n{I}{I}a + 2,\n{I}{I}w=3)  # tail\n'
+        '{I}lst = (\n{I}{I}1,  # one\n{I}{I}a * 2,\n\n{I}{I}g(a),\n{I})\n'
+        '{I}total = (x\n{I}{I}{I} + len(lst))\n{I}return total, lst\nprint(h(1))')}},
+    {'name': 'module_level', 'behav': KINDS, 'files': {'prog.py': (
+        '# header comment\n\ntotal = 1\n# comment about total\n\nother = total + \\\n{I}2\n'
+        'text = "total is " + str(total); more = "x"  # trailing\nprint(total, other, text, more)\nlast = total')}},
+    {'name': 'tuple_attr', 'behav': KINDS, 'files': {'prog.py': (
+        'class Obj:\n{I}size = 7\n\n{I}def up(self):\n{I}{I}return self.size + 1\n\n'
+        'def mk():\n{I}pair = 1, 2\n{I}first = pair[0]\n{I}obj = Obj()\n{I}up = obj.up()\n{I}big = obj.size\n'
+        '{I}neg = -first\n{I}return first, up, pair, neg ** 2, big\nprint(mk())')}},
+    {'name': 'closures', 'behav': ('rename', 'inline'), 'files': {'prog.py': (
+        'glob = 5\n\ndef deco(fn):\n{I}def inner(*args, **kw):\n{I}{I}return fn(*args, **kw), glob\n{I}return inner\n\n'
+        '@deco\ndef calc(p, q=2):\n{I}sq = [i * p for i in range(q)]\n{I}fn = lambda t: t + p\n'
+        '{I}msg = f"{p + q}:{fn(1)}"\n{I}res = p if q else -p\n{I}return sq, msg, res\n'
+        'print(calc(3), calc(2, 1))')}},
+    {'name': 'loops', 'behav': ('rename',), 'files': {'prog.py': (
+        'def gen(n):\n{I}i = 0\n{I}while i < n:\n{I}{I}yield i\n{I}{I}i += 1\n\n'
+        'class Box:\n{I}def __init__(self):\n{I}{I}self.items = ()\n\n{I}def add(self, item):\n'
+        '{I}{I}self.items = self.items + (item,)\n\n'
+        'def loop(n):\n{I}acc = Box()\n{I}for j in gen(n):\n{I}{I}try:\n{I}{I}{I}acc.add(10 // j)\n'
+        '{I}{I}except ZeroDivisionError:\n{I}{I}{I}acc.add(-1)\n{I}{I}{I}continue\n{I}{I}finally:\n{I}{I}{I}pass\n'
+        '{I}if not acc.items:\n{I}{I}return None\n{I}return acc.items\nprint(loop(3))')}},
+    {'name': 'one_line', 'behav': KINDS, 'files': {'prog.py': 'print(abs(1 + 2) * 3)'}},
+    {'name': 'two_lines', 'behav': KINDS, 'files': {'prog.py': 'x = 5\nprint(x + x * 2)'}},
+    {'name': 'use_before_def', 'behav': KINDS, 'files': {'prog.py': (
+        'def f():\n{I}return v + w\nv = 3\n\n# gap\n\nw = 4\nprint(f())')}},
+    {'name': 'empty', 'behav': (), 'files': {'prog.py': ''}},
+    {'name': 'comment_only', 'behav': (), 'files': {'prog.py': '# nothing here\n\n{I}# indented'}},
+    {'name': 'unicode_native', 'behav': KINDS, 'files': {'prog.py': (
+        'gr\u00f6\u00dfe = 3\n\u540d\u524d = "z\u00df\u20ac\U0001f600"  # \u30b3\u30e1\u30f3\u30c8 \U0001f600\n'
+        'def \u0192(\u00e4, \u03b2=gr\u00f6\u00dfe):\n{I}\u03b4 = \u00e4 * \u03b2  # \U0001f600 \u03b4\n{I}return \u03b4 + 1\n'
+        'print(\u0192(2), \u540d\u524d, \u0192(\u00e4=1))')}},
+    {'name': 'two_modules', 'behav': ('rename',), 'main': 'main.py', 'files': {
+        'helper.py': 'VALUE = 4\n\ndef tool(v):\n{I}return v + VALUE\n',
+        'helper_extra.py': 'VALUE = "untouched"\n',
+        'main.py': 'import helper\nfrom helper import tool, VALUE\n\nprint(tool(VALUE), helper.VALUE, helper.tool(1))',
+        'other.py': 'def tool():\n{I}VALUE = 1\n{I}return VALUE\n'}},
+    {'name': 'package', 'behav': ('rename',), 'main': 'main.py', 'files': {
+        'pkg/__init__.py': 'VALUE = 1\n', 'pkg/sub/__init__.py': '', 'pkg/sub/deep.py': 'import pkg\nx = pkg.VALUE\n',
+        'pkg/sub/more/__init__.py': '', 'pkg/sub/more/leaf.py': 'import pkg\ny = pkg.VALUE\n',
+        'pkg_utils.py': 'import pkg\nz = pkg.VALUE\n',
+        'main.py': 'import pkg\nimport pkg.sub.deep\nimport pkg_utils\nprint(pkg.VALUE, pkg.sub.deep.x, pkg_utils.z)'}},
 ]
 
+_NO_UNICODE = set(keyword.kwlist) | set(dir(__import__('builtins'))) | {
+    'self', 'cls', 'args', 'kw'} | {n for n in dir(str) + dir(list)}
+STMT_WORDS = {'def', 'class', 'if', 'elif', 'else', 'for', 'while', 'try', 'except', 'finally', 'with', 'async',
+              'await', 'import', 'from', 'global', 'nonlocal', 'del', 'pass', 'break', 'continue', 'raise', 'assert',
+              'return', 'yield', 'lambda', 'match', 'case', 'as', ':', ';', '=', '->', '@'}
 
-def apply_unified_diff(original_lines, diff_text):
-    """apply a one-file unified diff to a list of lines (with line ends)"""
+
+def render(tmpl, indent, eol, final_nl, uni, is_main, keep=()):
+    text = tmpl.replace('{I}', '\x00')
+    if uni:
+        text = re.sub(r'\b([A-Za-z_]\w*)\b(?!["\'])',
+                      lambda m: m.group(1) if m.group(1) in _NO_UNICODE or m.group(1) in keep or m.group(1).startswith('__')
+                      else m.group(1) + '\u00fc', text)
+    text = text.replace('\x00', indent)
+    if is_main:
+        if final_nl and text and not text.endswith('\n'):
+            text += '\n'
+        if not final_nl:
+            text = text.rstrip('\n')
+    return text.replace('\n', eol)
+
+
+# ---- the source text as Python sees it ------------------------------------------------------------------------
+class Src:
+    def __init__(self, text):
+        self.text = text
+        self.parts = text.split('\n')
+        self.starts = []
+        o = 0
+        for p in self.parts:
+            self.starts.append(o)
+            o += len(p) + 1
+        self.nlines = len(self.parts)
+        try:
+            self.toks = [t for t in tokenize.generate_tokens(io.StringIO(text).readline)
+                         if t.type != tokenize.ENDMARKER]
+        except (tokenize.TokenError, SyntaxError, ValueError):
+            self.toks = None
+        try:
+            self.tree = ast.parse(text)
+        except (SyntaxError, ValueError):
+            self.tree = None
+
+    def width(self, line):
+        p = self.parts[line - 1]
+        return len(p) - 1 if p.endswith('\r') and line < self.nlines else len(p)
+
+    def raw_width(self, line):
+        """length of the line including its line ending"""
+        return len(self.parts[line - 1]) + (1 if line < self.nlines else 0)
+
+    def in_range(self, line, col):
+        return isinstance(line, int) and isinstance(col, int) and 1 <= line <= self.nlines \
+            and 0 <= col <= self.width(line)
+
+    def off(self, line, col):
+        return self.starts[line - 1] + col
+
+    def line_start(self, off):
+        return self.text.rfind('\n', 0, off) + 1
+
+    def char_col(self, line, byte_col):
+        return len(self.parts[line - 1].encode('utf-8')[:byte_col].decode('utf-8'))
+
+    def sig_tokens(self):
+        return [t for t in self.toks if t.type not in (tokenize.NL, tokenize.NEWLINE, tokenize.COMMENT,
+                                                       tokenize.INDENT, tokenize.DEDENT)]
+
+    def logical_lines(self):
+        """[(first physical line, last physical line)] of every logical line"""
+        out = []
+        first = None
+        for t in self.toks:
+            if t.type in (tokenize.NL, tokenize.COMMENT, tokenize.INDENT, tokenize.DEDENT):
+                continue
+            if first is None:
+                first = t.start[0]
+            if t.type == tokenize.NEWLINE:
+                out.append((first, t.start[0]))
+                first = None
+        if first is not None:
+            out.append((first, self.nlines))
+        return out
+
+    def comments(self):
+        return [t.string for t in self.toks if t.type == tokenize.COMMENT]
+
+
+def names_at(src, line, col):
+    """identifiers touching the position (the candidates for 'the name under the cursor')"""
+    if src.toks is None:
+        return []
+    return [t.string for t in src.toks if t.type == tokenize.NAME and not keyword.iskeyword(t.string)
+            and t.start[0] == line and t.start[1] <= col <= t.end[1]]
+
+
+def bound_names(src):
+    """names bound somewhere in the source (renaming anything else, e.g. a builtin, cannot keep the behaviour)"""
+    out = set()
+    if src.tree is None:
+        return out
+    for n in ast.walk(src.tree):
+        if isinstance(n, ast.Name) and isinstance(n.ctx, ast.Store):
+            out.add(n.id)
+        elif isinstance(n, ast.Attribute) and isinstance(n.ctx, ast.Store):
+            out.add(n.attr)
+        elif isinstance(n, (ast.FunctionDef, ast.AsyncFunctionDef, ast.ClassDef)):
+            out.add(n.name)
+        elif isinstance(n, ast.arg):
+            out.add(n.arg)
+        elif isinstance(n, ast.alias):
+            out.add((n.asname or n.name).split('.')[0])
+    return {n for n in out if not n.startswith('__')}
+
+
+# ---- candidate requests ---------------------------------------------------------------------------------------
+def token_positions(src):
+    pos = set()
+    for ln in range(1, src.nlines + 1):
+        pos.add((ln, 0))
+        pos.add((ln, src.width(ln)))
+    if src.toks is not None:
+        for t in src.toks:
+            if t.type in (tokenize.INDENT, tokenize.DEDENT) or t.start[0] > src.nlines:
+                continue
+            for p in (t.start, t.end, (t.start[0], (t.start[1] + t.end[1]) // 2) if t.start[0] == t.end[0] else t.start):
+                if src.in_range(*p):
+                    pos.add(p)
+    return sorted(pos)
+
+
+def name_positions(src):
+    out = []
+    if src.toks is None:
+        return out
+    for t in src.toks:
+        if t.type == tokenize.NAME and not keyword.iskeyword(t.string):
+            for c in sorted({t.start[1], (t.start[1] + t.end[1]) // 2, t.end[1]}):
+                out.append((t.start[0], c))
+    return out
+
+
+def out_of_range_positions(src):
+    n = src.nlines
+    return [(0, 0), (n + 1, 0), (1, src.width(1) + 1), (n, src.width(n) + 1), (1, -1), (n + 7, 3), (-1, 0)]
+
+
+_IMPURE_PARENTS = (ast.Lambda, ast.ListComp, ast.SetComp, ast.DictComp, ast.GeneratorExp, ast.IfExp, ast.BoolOp,
+                   ast.JoinedStr, ast.FormattedValue, ast.While, ast.Yield, ast.YieldFrom, ast.Await, ast.NamedExpr,
+                   ast.comprehension)
+
+
+def expression_ranges(src):
+    """every Load-context expression node of Python's ast: ((line, col), (line, col), keeps_behaviour)"""
+    out = []
+    if src.tree is None:
+        return out
+    parent = {}
+    for n in ast.walk(src.tree):
+        for c in ast.iter_child_nodes(n):
+            parent[c] = n
+    for n in ast.walk(src.tree):
+        if not isinstance(n, ast.expr) or isinstance(n, (ast.Starred, ast.GeneratorExp, ast.Slice)):
+            continue
+        if not isinstance(getattr(n, 'ctx', None) or ast.Load(), ast.Load):
+            continue
+        chain = []
+        p = n
+        while p in parent and not isinstance(p, ast.stmt):
+            p = parent[p]
+            chain.append(p)
+        if any(isinstance(c, (ast.JoinedStr, ast.FormattedValue)) for c in chain):
+            continue
+        stmt = chain[-1] if chain and isinstance(chain[-1], ast.stmt) else None
+        pure = stmt is not None and not any(isinstance(c, _IMPURE_PARENTS) for c in chain) \
+            and not isinstance(n, (ast.Yield, ast.YieldFrom, ast.Await, ast.NamedExpr)) \
+            and isinstance(stmt, (ast.Assign, ast.Expr, ast.Return, ast.AugAssign, ast.If, ast.AnnAssign)) \
+            and not any(isinstance(d, (ast.Yield, ast.YieldFrom, ast.Await, ast.NamedExpr)) for d in ast.walk(n))
+        if isinstance(stmt, (ast.FunctionDef, ast.AsyncFunctionDef, ast.ClassDef)):
+            pure = False
+        # known limits of jedi that are outside this property: a keyword argument name is taken for a variable, and
+        # a multi-line expression is copied without the brackets that continued its lines
+        if any(isinstance(d, ast.keyword) for d in ast.walk(n)):
+            pure = False
+        if n.lineno != n.end_lineno and not isinstance(n, (ast.Tuple, ast.List, ast.Dict, ast.Set, ast.Call,
+                                                             ast.Subscript, ast.Constant)):
+            pure = False
+        start = (n.lineno, src.char_col(n.lineno, n.col_offset))
+        end = (n.end_lineno, src.char_col(n.end_lineno, n.end_col_offset))
+        out.append((start, end, pure))
+    return sorted(set(out))
+
+
+def statement_runs(src, max_len=3, simple_only=False):
+    """runs of consecutive statements of one body that fill whole physical lines: (first line, first col, last line)"""
+    out = []
+    if src.tree is None or src.toks is None:
+        return out
+    by_line = {}
+    for t in src.toks:
+        if t.type not in (tokenize.NL, tokenize.NEWLINE, tokenize.COMMENT, tokenize.INDENT, tokenize.DEDENT):
+            for ln in range(t.start[0], t.end[0] + 1):
+                by_line.setdefault(ln, []).append(t)
+
+    def whole_lines(st):
+        first = min([st.lineno] + [d.lineno for d in getattr(st, 'decorator_list', [])])
+        col = src.char_col(st.lineno, st.col_offset)
+        a = by_line.get(first, [])
+        b = by_line.get(st.end_lineno, [])
+        if not a or not b or (first == st.lineno and a[0].start != (st.lineno, col)):
+            return None
+        if b[-1].end != (st.end_lineno, src.char_col(st.end_lineno, st.end_col_offset)):
+            return None
+        return first, a[0].start[1], st.end_lineno
+
+    for n in ast.walk(src.tree):
+        for field in ('body', 'orelse', 'finalbody'):
+            body = getattr(n, field, None)
+            if not isinstance(body, list) or not body or not isinstance(body[0], ast.stmt):
+                continue
+            spans = [None if simple_only and hasattr(st, 'body') else whole_lines(st) for st in body]
+            for i in range(len(body)):
+                for j in range(i, min(i + max_len, len(body))):
+                    if all(s is not None for s in spans[i:j + 1]):
+                        out.append((spans[i][0], spans[i][1], spans[j][2]))
+    return sorted(set(out))
+
+
+def fresh_name(src_texts, rng, unicode_name):
+    """a name whose characters at both ends do not occur in any source, so it can be located exactly"""
+    blob = ''.join(src_texts)
+    order = 'QZJXWYVKHGUDBMPRTLNFCSEOAI'
+    letters = [c for c in order if c not in blob and c.lower() not in blob] or [c for c in order if c not in blob]
+    if not letters:
+        raise RuntimeError('no free letter for a fresh name')
+    c = letters[0]
+    mid = rng.choice(['', '_', '_9_', 'o' * 12])
+    if unicode_name:
+        mid += '\u00f1\u4e2d'
+    return c + mid + c
+
+
+def extract_requests(src, rng, n_each):
+    """[(cls, line, col, kwargs, info)]"""
+    reqs = []
+    exprs = expression_ranges(src)
+    for (sl, sc), (el, ec), pure in rng.sample(exprs, min(len(exprs), n_each['expr'])):
+        modes = ['both']
+        if sl == el:
+            modes.append('col')
+        if ec == src.raw_width(el):
+            modes.append('line')       # the range ends where "to the end of that line" ends
+        mode = rng.choice(modes)
+        kw = {'both': {'until_line': el, 'until_column': ec}, 'col': {'until_column': ec},
+              'line': {'until_line': el}}[mode]
+        reqs.append(('expr', sl, sc, kw, {'exact': (src.off(sl, sc), src.off(el, ec)), 'pure': pure}))
+    # "to the end of the line" on every line that ends with an expression (bare until_line)
+    line_end = [(s, e, p) for s, e, p in exprs if e[1] == src.width(e[0])]
+    simple = statement_runs(src, 1, simple_only=True)
+    for (sl, sc), (el, ec), pure in rng.sample(line_end, min(len(line_end), n_each['line_end'])):
+        # the requested range ends behind the line break: jedi may take the whole (simple) statement instead
+        inside = [(a, b) for a, _, b in simple if a <= sl and el <= b]
+        info = {'exact': (src.off(inside[0][0], 0), src.off(inside[0][1], src.raw_width(inside[0][1])))} if inside else {}
+        reqs.append(('expr_to_eol', sl, sc, {'until_line': el}, info))
+    runs = statement_runs(src)
+    for first, col, last in rng.sample(runs, min(len(runs), n_each['stmts'])):
+        kw = rng.choice([{'until_line': last}, {'until_line': last, 'until_column': src.width(last)},
+                         {'until_line': last, 'until_column': src.raw_width(last)}])
+        c = rng.choice([0, col])
+        s = src.off(first, 0)
+        e = src.off(last, src.raw_width(last))      # jedi may or may not take the line break with it
+        reqs.append(('stmts', first, c, kw, {'lines': (s, e)}))
+    pos = token_positions(src)
+    for line, col in rng.sample(pos, min(len(pos), n_each['cursor'])):
+        reqs.append(('cursor', line, col, {}, {}))
+    for _ in range(min(n_each['range'], len(pos) * 2)):
+        i = rng.randrange(len(pos))
+        j = min(len(pos) - 1, i + rng.choice([0, 1, 2, 3, 5, 8, 13, rng.randrange(len(pos))]))
+        (sl, sc), (el, ec) = pos[i], pos[j]
+        kw = rng.choice([{'until_line': el, 'until_column': ec}, {'until_line': el},
+                         {'until_column': ec} if sl == el else {'until_line': el, 'until_column': ec}])
+        reqs.append(('range', sl, sc, kw, {}))
+    oor = out_of_range_positions(src)
+    for _ in range(n_each['oor']):
+        if rng.random() < 0.5:
+            line, col = rng.choice(oor)
+            kw = rng.choice([{}, {'until_line': 1}, {'until_line': 1, 'until_column': 0}])
+        else:
+            line, col = rng.choice(pos)
+            kw = rng.choice([{'until_line': 0}, {'until_line': src.nlines + 1}, {'until_line': -2},
+                             {'until_line': src.nlines + 1, 'until_column': 0},
+                             {'until_column': src.width(line) + 50}, {'until_line': 0, 'until_column': 0}])
+        reqs.append(('oor', line, col, kw, {}))
+    return reqs
+
+
+def cursor_requests(src, rng, n_each):
+    reqs = []
+    names = name_positions(src)
+    for line, col in rng.sample(names, min(len(names), n_each['names'])):
+        reqs.append(('name', line, col, {}, {}))
+    pos = token_positions(src)
+    for line, col in rng.sample(pos, min(len(pos), n_each['cursor'])):
+        reqs.append(('cursor', line, col, {}, {}))
+    oor = out_of_range_positions(src)
+    for line, col in rng.sample(oor, min(len(oor), n_each['oor'])):
+        reqs.append(('oor', line, col, {}, {}))
+    return reqs
+
+
+def positions_in_range(src, line, col, kw):
+    """does every coordinate of the request name a position inside the source?"""
+    if not src.in_range(line, col):
+        return False
+    ul = kw.get('until_line')
+    uc = kw.get('until_column')
+    if ul is None and uc is None:
+        return True
+    ul = line if ul is None else ul
+    if not (1 <= ul <= src.nlines):
+        return False
+    if uc is None:
+        return True
+    return 0 <= uc <= src.raw_width(ul)
+
+
+# ---- unified diff: strict parser and applier ------------------------------------------------------------------
+class DiffError(Exception):
+    pass
+
+
+def _dlines(text):
+    parts = text.split('\n')
+    return [p + '\n' for p in parts[:-1]] + ([parts[-1]] if parts[-1] else [])
+
+
+def parse_diff(text, miscounted):
+    """`miscounted` receives the hunks whose header counts one line too many on both sides at the end of the file
+    -> (renames [(from, to)], sections [(from, to, hunks)]) ; hunks = [(old_start, old_n, new_start, new_n, lines)]"""
+    lines = _dlines(text)
+    i = 0
+    renames = []
+    del miscounted[:]
+    while i < len(lines) and lines[i].startswith('rename from '):
+        if i + 1 >= len(lines) or not lines[i + 1].startswith('rename to '):
+            raise DiffError('"rename from" without "rename to" at line %d' % (i + 1))
+        renames.append((lines[i][len('rename from '):-1], lines[i + 1][len('rename to '):-1]))
+        i += 2
+    sections = []
+    while i < len(lines):
+        if not lines[i].startswith('--- ') or i + 1 >= len(lines) or not lines[i + 1].startswith('+++ '):
+            raise DiffError('expected a ---/+++ file header at diff line %d: %r' % (i + 1, lines[i]))
+        frm, to = lines[i][4:-1], lines[i + 1][4:-1]
+        i += 2
+        hunks = []
+        while i < len(lines) and lines[i].startswith('@@'):
+            m = re.fullmatch(r'@@ -(\d+)(?:,(\d+))? \+(\d+)(?:,(\d+))? @@\n', lines[i])
+            if not m:
+                raise DiffError('bad hunk header %r' % lines[i])
+            os_, on = int(m.group(1)), int(m.group(2) if m.group(2) is not None else 1)
+            ns, nn = int(m.group(3)), int(m.group(4) if m.group(4) is not None else 1)
+            i += 1
+            body = []
+            seen_old = seen_new = 0
+            while seen_old < on or seen_new < nn:
+                if seen_old == on - 1 and seen_new == nn - 1 and (
+                        i >= len(lines) or (lines[i].startswith('--- ') and i + 1 < len(lines)
+                                            and lines[i + 1].startswith('+++ '))):
+                    # the hunk announces one more line on both sides than it has, and it is the last of its file
+                    miscounted.append((frm, os_, on, ns, nn))
+                    on -= 1
+                    nn -= 1
+                    os_ -= on == 0
+                    ns -= nn == 0
+                    break
+                if i >= len(lines):
+                    raise DiffError('hunk -%d,%d +%d,%d is shorter than announced' % (os_, on, ns, nn))
+                l = lines[i]
+                if l in ('+', '-', ' ') and i == len(lines) - 1:
+                    # the empty pseudo line after a final newline, diffed as if it were a line
+                    miscounted.append((frm, os_, on, ns, nn))
+                    os_ -= l != '+' and on == 1
+                    ns -= l != '-' and nn == 1
+                    on -= l != '+'
+                    nn -= l != '-'
+                    i += 1
+                    continue
+                if not l.endswith('\n'):
+                    raise DiffError('diff line without line end: %r' % l)
+                if l[0] == ' ':
+                    seen_old += 1
+                    seen_new += 1
+                elif l[0] == '-':
+                    seen_old += 1
+                elif l[0] == '+':
+                    seen_new += 1
+                else:
+                    raise DiffError('unexpected line in hunk: %r' % l)
+                body.append(l)
+                i += 1
+            if seen_old != on or seen_new != nn:
+                raise DiffError('hunk -%d,%d +%d,%d has %d old and %d new lines' % (os_, on, ns, nn, seen_old, seen_new))
+            hunks.append((os_, on, ns, nn, body))
+        if not hunks:
+            raise DiffError('file section %r without hunks' % frm)
+        sections.append((frm, to, hunks))
+    return renames, sections
+
+
+def apply_hunks(original_lines, hunks):
     out = []
     src = 0
-    lines = diff_text.splitlines(keepends=True)
-    i = 0
-    while i < len(lines) and not lines[i].startswith('@@'):
-        i += 1
-    while i < len(lines):
-        m = re.match(r'@@ -(\d+)(?:,(\d+))? \+(\d+)(?:,(\d+))? @@', lines[i])
-        if not m:
-            raise ValueError('bad hunk header %r' % lines[i])
-        start = int(m.group(1))
-        count = int(m.group(2) or '1')
-        if count == 0:
-            start += 1
+    for os_, on, ns, nn, body in hunks:
+        start = os_ if on else os_ + 1
+        if start - 1 < src:
+            raise DiffError('hunks overlap or are out of order at -%d' % os_)
         out.extend(original_lines[src:start - 1])
         src = start - 1
-        i += 1
-        while i < len(lines) and not lines[i].startswith('@@'):
-            l = lines[i]
-            if l.startswith(' '):
-                if original_lines[src] != l[1:]:
-                    raise ValueError('context mismatch at %d: %r vs %r' % (src, original_lines[src], l[1:]))
-                out.append(l[1:])
+        new_start = ns if nn else ns + 1
+        if len(out) + 1 != new_start:
+            raise DiffError('hunk +%d starts at new line %d' % (ns, len(out) + 1))
+        for l in body:
+            if l[0] in ' -':
+                if src >= len(original_lines) or original_lines[src] != l[1:]:
+                    raise DiffError('context/removal mismatch at old line %d: %r vs %r' % (
+                        src + 1, original_lines[src] if src < len(original_lines) else None, l[1:]))
                 src += 1
-            elif l.startswith('-'):
-                if original_lines[src] != l[1:]:
-                    raise ValueError('removal mismatch at %d: %r vs %r' % (src, original_lines[src], l[1:]))
-                src += 1
-            elif l.startswith('+'):
+            if l[0] in ' +':
                 out.append(l[1:])
-            elif l.startswith('\\'):
-                pass
-            i += 1
     out.extend(original_lines[src:])
     return out
 
 
 def with_nl(text):
     """upstream's documented choice: the diff is computed as if a missing final newline were present"""
-    import parso
-    ls = parso.split_lines(text, keepends=True)
-    if ls[-1] != '':
+    ls = _dlines(text)
+    if ls and not ls[-1].endswith('\n'):
         ls[-1] += '\n'
-    return [l for l in ls if l != '']
+    return ls
 
 
-def run_prog(path):
-    p = subprocess.run([sys.executable, '-S', path], capture_output=True, text=True, timeout=60)
-    return p.returncode, p.stdout
+# ---- executing programs ---------------------------------------------------------------------------------------
+class _Timeout(Exception):
+    pass
+
+
+def _alarm(signum, frame):
+    raise _Timeout()
+
+
+def exec_source(text, path):
+    """run the program text in this process: ('ok', stdout) | ('exc', type, stdout) | ('syntax',)"""
+    try:
+        code = compile(text, path, 'exec')
+    except (SyntaxError, ValueError):
+        return ('syntax',)
+    buf = io.StringIO()
+    old = signal.signal(signal.SIGALRM, _alarm)
+    signal.alarm(10)
+    try:
+        with contextlib.redirect_stdout(buf):
+            exec(code, {'__name__': '__main__', '__file__': path})
+    except _Timeout:
+        return ('exc', 'timeout', buf.getvalue())
+    except RecursionError:
+        return ('exc', 'RecursionError', '')
+    except Exception as e:
+        return ('exc', type(e).__name__, buf.getvalue())
+    finally:
+        signal.alarm(0)
+        signal.signal(signal.SIGALRM, old)
+    return ('ok', buf.getvalue())
+
+
+def run_project(work, main):
+    p = subprocess.run([sys.executable, '-S', '-B', main], cwd=work, capture_output=True, text=True, timeout=120,
+                       env=dict(os.environ, PYTHONDONTWRITEBYTECODE='1', PYTHONPATH=''))
+    return ('ok', p.stdout) if p.returncode == 0 else ('exc', p.stderr.strip().splitlines()[-1:] or '', p.stdout)
+
+
+# ---- the file system ------------------------------------------------------------------------------------------
+class OutsideProject(Exception):
+    pass
+
+
+def paths_outside(ref, root):
+    """SAFETY: apply() writes get_changed_files() and renames get_renames(); a refactoring of a name that lives in
+    the standard library or site-packages would rewrite/rename REAL files.  Every path must be inside `root`."""
+    root = os.path.realpath(root)
+    paths = [p for p in ref.get_changed_files() if p is not None]
+    for a, b in ref.get_renames():
+        paths += [a, b]
+    return [str(p) for p in paths
+            if not (os.path.realpath(str(p)) + os.sep).startswith(root + os.sep)]
+
+
+def guarded_apply(ref, root):
+    """the only place of this module that calls Refactoring.apply()"""
+    out = paths_outside(ref, root)
+    if out:
+        raise OutsideProject(repr(out))
+    ref.apply()
+
+
+def snapshot(work):
+    out = {}
+    for root, dirs, files in os.walk(work):
+        dirs[:] = [d for d in dirs if d != '__pycache__']
+        for f in files:
+            p = os.path.join(root, f)
+            with open(p, 'rb') as fh:
+                out[os.path.relpath(p, work)] = fh.read()
+    return out
+
+
+def stat_signature(work):
+    """cheap change detector (size, mtime, inode of every file); the byte snapshot decides when it differs"""
+    out = {}
+    stack = [work]
+    while stack:
+        d = stack.pop()
+        with os.scandir(d) as it:
+            for e in it:
+                if e.is_dir(follow_symlinks=False):
+                    if e.name != '__pycache__':
+                        stack.append(e.path)
+                else:
+                    st = e.stat(follow_symlinks=False)
+                    out[e.path] = (st.st_size, st.st_mtime_ns, st.st_ino)
+    return out
+
+
+def restore(work, files, current=None):
+    """bring the directory back to `files` (only what differs is written)"""
+    current = snapshot(work) if current is None else current
+    for rel in current:
+        if rel not in files:
+            os.unlink(os.path.join(work, rel))
+    for rel, data in files.items():
+        if current.get(rel) != data:
+            p = os.path.join(work, rel)
+            os.makedirs(os.path.dirname(p), exist_ok=True)
+            with open(p, 'wb') as fh:
+                fh.write(data)
+    for root, dirs, _ in os.walk(work, topdown=False):
+        for d in dirs:
+            p = os.path.join(root, d)
+            if d == '__pycache__':
+                shutil.rmtree(p, ignore_errors=True)
+            elif not os.listdir(p) and not any(f.startswith(os.path.relpath(p, work) + os.sep) for f in files):
+                os.rmdir(p)
+
+
+def moved(rel, renames):
+    """where a path is after the announced renames (own arithmetic on path components)"""
+    parts = rel.split(os.sep)
+    for frm, to in renames:
+        f = frm.split(os.sep)
+        if parts[:len(f)] == f:
+            parts = to.split(os.sep) + parts[len(f):]
+    return os.sep.join(parts)
+
+
+# ---- preservation oracles -------------------------------------------------------------------------------------
+def subsequence(needles, hay):
+    it = iter(hay)
+    for n in needles:
+        for h in it:
+            if h == n:
+                break
+        else:
+            return n
+    return None
+
+
+def check_lines(src, new, touched):
+    """every physical line outside `touched` (1-based numbers) is still there, byte for byte and in order"""
+    old_lines = _dlines(src.text)
+    keep = [l for i, l in enumerate(old_lines, 1) if i not in touched]
+    missing = subsequence(keep, _dlines(new))
+    if missing is not None:
+        return 'line %r is gone or altered' % missing
+    return None
+
+
+def check_comments(src, new):
+    if src.toks is None:
+        return None
+    n = Src(new)
+    if n.toks is not None:
+        have = n.comments()
+        for c in src.comments():
+            if c in have:
+                have.remove(c)
+            else:
+                return 'comment %r' % c
+        return None
+    for c in sorted(set(src.comments())):
+        if new.count(c) < src.text.count(c):
+            return 'comment %r' % c
+    return None
+
+
+def logical_touched(src, first, last):
+    out = set(range(first, last + 1))
+    for a, b in src.logical_lines():
+        if a <= last and b >= first:
+            out.update(range(a, b + 1))
+    return out
+
+
+def selection_is_expression_part(src, line, col, kw):
+    """True if every token the explicit range overlaps lies in one logical line and none of them is statement syntax
+    (then jedi may widen the range to a node, but never beyond that logical line)"""
+    if src.toks is None:
+        return None
+    ul = kw.get('until_line', line) if kw.get('until_line') is not None else line
+    uc = kw.get('until_column')
+    if uc is None:
+        uc = src.raw_width(ul)
+    a, b = (line, col), (ul, uc)
+    if b < a:
+        return None
+    sel = [t for t in src.toks if t.end > a and t.start < b and t.type not in (tokenize.INDENT, tokenize.DEDENT)]
+    if not sel or any(t.type in (tokenize.NEWLINE, tokenize.NL, tokenize.COMMENT) for t in sel):
+        return None
+    if any(t.string in STMT_WORDS for t in sel):
+        return None
+    for la, lb in src.logical_lines():
+        if la <= sel[0].start[0] and sel[-1].end[0] <= lb:
+            first = [t for t in src.toks if t.start[0] >= la and t.type not in (
+                tokenize.NL, tokenize.COMMENT, tokenize.INDENT, tokenize.DEDENT)][0]
+            if first.string in STMT_WORDS:
+                return None         # header of a compound statement: the enclosing node is the whole statement
+            return set(range(la, lb + 1))
+    return None
+
+
+def cursor_touched(src, line, col):
+    """cursor without range strictly inside (or at the start of) a name/number/string: jedi picks a node inside the
+    logical line"""
+    if src.toks is None:
+        return None
+    for t in src.toks:
+        if t.type in (tokenize.NAME, tokenize.NUMBER, tokenize.STRING) and t.start <= (line, col) < t.end:
+            if t.string in STMT_WORDS or (keyword.iskeyword(t.string) and t.string not in ('None', 'True', 'False')):
+                return None
+            for la, lb in src.logical_lines():
+                if la <= line <= lb:
+                    return set(range(la, lb + 1))
+    return None
+
+
+def token_strings(text):
+    try:
+        return [t.string for t in tokenize.generate_tokens(io.StringIO('(' + text + '\n)').readline)
+                if t.type not in (tokenize.NL, tokenize.NEWLINE, tokenize.COMMENT, tokenize.INDENT, tokenize.DEDENT,
+                                  tokenize.ENDMARKER)][1:-1]
+    except (tokenize.TokenError, SyntaxError, IndentationError):
+        return None
+
+
+def check_extract(src, new, name, s, e, kind):
+    """[s, e) is the requested range.  The new code must be
+        source[:i] + DEFINITION + source[i:s] + R + source[e:]
+    with i a line start <= s, DEFINITION whole generated lines holding `name` once, and R = the requested text with
+    one part of it replaced by the new name / a call (statement form: by one generated line).
+    -> (label, message) or None"""
+    text = src.text
+    if new.count(name) != 2:
+        return L_UNTOUCHED, 'the new name occurs %d times, expected a definition and one use' % new.count(name)
+    tail = text[e:]
+    if not new.endswith(tail):
+        return L_UNTOUCHED, 'the text after the requested range changed: the new code should end with %r' % tail[:120]
+    r_end = len(new) - len(tail)
+    p = 0
+    while p < len(text) and p < len(new) and text[p] == new[p]:
+        p += 1
+    i = min(src.line_start(min(p, len(text))), src.line_start(s))
+    if new[:i] != text[:i]:
+        return L_UNTOUCHED, 'the text before the generated definition changed'
+    head = text[i:s]
+    d, u = new.find(name), new.rfind(name)
+    k = None
+    for m in re.finditer(r'\n', new[:u]):
+        c = m.end()
+        if d < c and new[c:c + len(head)] == head and c + len(head) <= u and u + len(name) <= r_end:
+            k = c                       # the last fitting line start: longest DEFINITION, shortest R
+    if k is None:
+        return L_UNTOUCHED, ('the text between the generated definition and the requested range is not the original '
+                             'text %r' % head[-160:])
+    definition, r = new[i:k], new[k + len(head):r_end]
+    requested = text[s:e]
+    if kind == 'extract_variable':
+        use = re.escape(name)
+    else:
+        use = r'(?:\w+\.)?' + re.escape(name) + r'\((?:\w+(?:, \w+)*)?\)'
+    m = re.search(use, r)
+    if not m:
+        return L_UNTOUCHED, 'the requested range became %r' % r
+    pre, post = r[:m.start()], r[m.end():]
+    pres, posts = [pre], [post]
+    if kind == 'extract_function':
+        pres.append(re.sub(r'(?:return |\w+(?:, \w+)* = | = )$', '', pre))     # "x = " / "return " of a generated statement
+    if post.startswith('\n'):
+        posts.append(post[1:])                                                # line end of a generated statement
+    result = (L_UNTOUCHED, 'the requested range %r became %r' % (requested, r))
+    for pre in pres:
+        for post in posts:
+            if requested.startswith(pre) and requested.endswith(post) and len(pre) + len(post) <= len(requested):
+                result = _check_generated(requested[len(pre):len(requested) - len(post)], definition, name, kind)
+                if result is None:
+                    return None
+    return result
+
+
+def _check_generated(extracted, definition, name, kind):
+    want = token_strings(extracted)
+    if kind == 'extract_variable':
+        m = re.fullmatch(r'[ \t]*' + re.escape(name) + r' = (.*?)\r?\n', definition, re.S)
+        if not m:
+            return L_GENERATED, 'generated definition %r' % definition
+        got = token_strings(m.group(1))
+        if got is not None and want is not None and got != want:
+            return L_GENERATED, 'defined %r for the extracted text %r' % (m.group(1), extracted)
+    else:
+        m = re.search(r'def ' + re.escape(name) + r'\([^\n]*\):\r?\n', definition)
+        if not m:
+            return L_GENERATED, 'generated definition %r' % definition
+        body = definition[m.end():]
+        got = token_strings(body)
+        if got is not None and want is not None and got[:len(want)] != want and got[1:len(want) + 1] != want:
+            return L_GENERATED, 'function body %r for the extracted text %r' % (body, extracted)
+    return None
+
+
+# ---- one group = one project rendered one way, a history of requests on it -------------------------------------
+def corpus_cases(repo):
+    """the input halves of the refactoring corpus of the tree under test"""
+    base = os.path.join(repo, 'test', 'refactor')
+    out = []
+    if not os.path.isdir(base):
+        return out
+    for fname in sorted(os.listdir(base)):
+        if not fname.endswith('.py'):
+            continue
+        with open(os.path.join(base, fname), newline='') as f:
+            code = f.read()
+        r = r'^# -{5,} ?([^\n]*)\n((?:(?!\n# \+{5,}).)*\n)# \+{5,}\n((?:(?!\n# -{5,}).)*\n)'
+        for m in re.finditer(r, code, re.DOTALL | re.MULTILINE):
+            first = m.group(2)
+            p = re.match(r'((?:(?!#\?).)*)#\? (\d*)( error| text|) ?([^\n]*)', first, re.DOTALL)
+            marked = None
+            if p is not None:
+                try:
+                    kw = eval(p.group(4)) if p.group(4) else {}
+                except Exception:
+                    kw = {}
+                marked = (fname[:-3], p.group(1).count('\n') + 2, int(p.group(2)), kw)
+            imported = set(re.findall(r'^[ \t]*(?:import|from)[ \t]+([A-Za-z_]\w*)', first, re.M))
+            out.append({'name': 'corpus:%s:%s' % (fname[:-3], m.group(1).strip()), 'file': fname, 'text': first,
+                        'marked': marked, 'foreign_imports': sorted(imported - {'import_tree'})})
+    return out
+
+
+def _copy_import_tree(repo, work):
+    src = os.path.join(repo, 'test', 'refactor', 'import_tree')
+    if os.path.isdir(src):
+        shutil.copytree(src, os.path.join(work, 'import_tree'), ignore=shutil.ignore_patterns('__pycache__'))
+
+
+def _init_worker(tmp):
+    import jedi
+    d = os.path.join(tmp, 'cache_%d' % os.getpid())
+    os.makedirs(d, exist_ok=True)
+    jedi.settings.cache_directory = d
+
+
+def run_group(job):
+    import jedi
+    enc = locale.getpreferredencoding(False)
+    seed, tier, repo, gi, spec, variant, counts = job
+    indent, eol, final_nl, uni = variant
+    rng = random.Random('%s|%s|%s|%r' % (seed, gi, spec['name'], variant))
+    violations = []
+    stats = {'evaluations': 0, 'succeeded': 0, 'applied': 0, 'exact_checked': 0, 'behaviour_checked': 0,
+             'apply_skipped_outside': 0, 'sandbox_artefacts': 0}
+    samples = []
+    ts = os.path.join(repo, 'jedi', 'third_party', 'typeshed')
+    typeshed_missing = not os.path.isdir(ts) or not os.listdir(ts)
+    base = tempfile.mkdtemp(prefix='ref_', dir=os.environ['STANDIN_TMP'])
+    work = os.path.join(base, 'project')
+    empty = os.path.join(base, 'no_project')      # project directory of the Scripts without path
+    os.mkdir(work)
+    os.mkdir(empty)
+    try:
+        # ---- lay out the project
+        corpus = 'text' in spec
+        if corpus:
+            text = spec['text']
+            if not final_nl:
+                text = text.rstrip('\n')
+            texts = {spec['file']: text.replace('\n', eol)}
+            main = spec['file']
+            _copy_import_tree(repo, work)
+            behav = ()
+        else:
+            main = spec.get('main', 'prog.py')
+            keep = {c for rel in spec['files'] for c in os.path.splitext(rel)[0].split('/')}
+            texts = {rel: render(t, indent, eol, final_nl, uni, rel == main, keep) for rel, t in spec['files'].items()}
+            behav = spec['behav']
+        for rel, t in texts.items():
+            p = os.path.join(work, rel)
+            os.makedirs(os.path.dirname(p), exist_ok=True)
+            with open(p, 'w', newline='', encoding='utf-8') as f:
+                f.write(t)
+        before = snapshot(work)
+        signature = [stat_signature(work)]
+
+        def disk_unchanged():
+            """nothing in the project directory changed since the last restore (bytes compared when the stat differs)"""
+            if stat_signature(work) == signature[0]:
+                return True
+            if snapshot(work) == before:
+                signature[0] = stat_signature(work)
+                return True
+            return False
+
+        def put_back(current=None):
+            restore(work, before, current)
+            signature[0] = stat_signature(work)
+
+        multi = len(texts) > 1
+        baseline = None
+        if behav:
+            baseline = run_project(work, main) if multi else exec_source(texts[main], os.path.join(work, main))
+            if baseline[0] != 'ok':
+                raise RuntimeError('generated program %s %r does not run: %r' % (spec['name'], variant, baseline))
+        project = jedi.Project(work)
+        empty_project = jedi.Project(empty)
+        all_texts = [b.decode('utf-8') for b in before.values()]
+
+        # ---- requests: (file, kind, cls, line, col, kwargs, info)
+        requests = []
+        targets = [main] if corpus else sorted(texts)
+        for rel in targets:
+            src = Src(texts[rel])       # (tokenised and parsed once more below; requests are drawn from it)
+            share = 1 if rel == main else 3
+            for kind in KINDS:
+                if kind in ('rename', 'inline') and spec.get('foreign_imports'):
+                    # SAFETY: the input imports modules from outside the scratch project (e.g. `import os`); renaming or
+                    # inlining such a name concerns real files of the Python installation - never request it
+                    continue
+                if kind in ('rename', 'inline'):
+                    rs = cursor_requests(src, rng, {k: max(1, v // share) for k, v in counts['cursor'].items()})
+                else:
+                    rs = extract_requests(src, rng, {k: max(1, v // share) for k, v in counts['extract'].items()})
+                requests += [(rel, kind) + r for r in rs]
+        if corpus and spec['marked'] is not None and not (
+                spec['marked'][0] in ('rename', 'inline') and spec['foreign_imports']):
+            kind, line, col, kw = spec['marked']
+            kw = {k: v for k, v in kw.items() if k != 'new_name'}
+            requests.append((main, kind, 'marked', line, col, kw, {}))
+        rng.shuffle(requests)
+
+        shared = {}
+        analysed = {rel: Src(texts[rel]) for rel in targets}
+        for rel, kind, cls, line, col, kw, info in requests:
+            src = analysed[rel]
+            path = os.path.join(work, rel)
+            nopath = not multi and not corpus and rng.random() < 0.08
+            fresh = rng.random() < 0.3
+            if nopath:
+                script = jedi.Script(src.text, project=empty_project)
+            elif fresh or rel not in shared:
+                script = jedi.Script(src.text, path=path, project=project)
+                if not fresh:
+                    shared[rel] = script
+            else:
+                script = shared[rel]
+            kwargs = dict(kw)
+            name = None
+            if kind != 'inline':
+                name = fresh_name(all_texts, rng, rng.random() < 0.25)
+                kwargs['new_name'] = name
+            desc = {'program': spec['name'], 'file': rel, 'indent': indent, 'eol': eol, 'final_newline': final_nl,
+                    'unicode': uni, 'kind': kind, 'args': [line, col], 'kwargs': kwargs, 'request': cls,
+                    'script': 'path=None' if nopath else ('fresh' if fresh else 'shared'), 'source': src.text}
+            if multi:
+                desc['project'] = {k: v for k, v in texts.items() if k != rel}
+
+            def bad(label, observed, _desc=desc, _kind=kind):
+                if label in (L_OTHER_EXC, L_INSPECT, L_APPLY_EXC) and spec['name'] == 'package' and _kind == 'rename':
+                    label = L_PKG
+                violations.append({'label': label, 'input': repr(_desc), 'observed': observed,
+                                   'key': '%s|%s|%s' % (_kind, _desc['program'].split(':')[0], _desc['request'])})
+
+            stats['evaluations'] += 1
+            valid = positions_in_range(src, line, col, kw)
+            try:
+                ref = getattr(script, kind)(line, col, **kwargs)
+            except jedi.RefactoringError:
+                ref = None
+            except ValueError:
+                if typeshed_missing and 'values_from_qualified_names' in traceback.format_exc():
+                    stats['sandbox_artefacts'] += 1     # needs a typeshed stub (e.g. types.FunctionType), absent here
+                elif valid:
+                    bad(L_VALUEERR, traceback.format_exc(limit=-2))
+                ref = None
+            except Exception:
+                if typeshed_missing and 'values_from_qualified_names' in traceback.format_exc():
+                    stats['sandbox_artefacts'] += 1
+                else:
+                    bad(L_OTHER_EXC, traceback.format_exc(limit=-3))
+                ref = None
+            if not disk_unchanged():
+                bad(L_DISK_BEFORE, 'after the request')
+                put_back()
+            if ref is None:
+                continue
+            stats['succeeded'] += 1
+
+            # ---- inspect
+            try:
+                changed = ref.get_changed_files()
+                renames = list(ref.get_renames())
+                full_diff = ref.get_diff()
+                per_file = {p: (cf.get_new_code(), cf.get_diff()) for p, cf in changed.items()}
+                again = None
+                if rng.random() < 0.3:
+                    again = (ref.get_diff(), {p: (cf.get_new_code(), cf.get_diff())
+                                              for p, cf in ref.get_changed_files().items()})
+            except Exception:
+                bad(L_INSPECT, traceback.format_exc(limit=-3))
+                continue
+            if again is not None and again != (full_diff, per_file):
+                bad(L_UNSTABLE, repr(again)[:300])
+            if not disk_unchanged():
+                bad(L_DISK_BEFORE, 'after get_changed_files()/get_diff()/get_new_code()')
+                put_back()
+
+            def rel_of(p):
+                if p is None:
+                    return ''
+                p = str(p)
+                return os.path.relpath(p, work) if p.startswith(work + os.sep) else p
+
+            ren_rel = [(rel_of(a), rel_of(b)) for a, b in renames]
+            new_by_rel = {rel_of(p): v[0] for p, v in per_file.items()}
+            old_by_rel = {}
+            for r in new_by_rel:
+                if r == '' or (r == rel):
+                    old_by_rel[r] = src.text
+                elif r in before:
+                    old_by_rel[r] = before[r].decode('utf-8')
+                else:
+                    bad(L_FILES, 'changed file %r is not a file of the project' % r)
+            if nopath and set(new_by_rel) != {''}:
+                bad(L_FILES, 'Script without path: changed files %r' % sorted(new_by_rel))
+            if not nopath and '' in new_by_rel:
+                bad(L_FILES, 'a changed file without path: %r' % sorted(new_by_rel))
+
+            # Refactoring.get_diff() = rename lines + the diffs of the changed files
+            expected_full = ''.join('rename from %s\nrename to %s\n' % r for r in ren_rel) \
+                + ''.join(v[1] for v in per_file.values())
+            if full_diff != expected_full:
+                bad(L_REF_DIFF, full_diff[:300])
+            # well-formed; transforms every original into its new code; names exactly the touched files
+            try:
+                miscounted = []
+                d_renames, sections = parse_diff(full_diff, miscounted)
+                if miscounted:
+                    bad(L_HUNK_EOF, 'hunks %r in\n%s' % (miscounted, full_diff[:600]))
+            except DiffError as e:
+                bad(L_MALFORMED, '%s\n%s' % (e, full_diff[:400]))
+                d_renames, sections = None, []
+            if d_renames is not None:
+                if sorted(d_renames) != sorted(ren_rel):
+                    bad(L_FILES, 'renames in the diff %r, get_renames() %r' % (d_renames, ren_rel))
+                touched_files = sorted(s[0] for s in sections)
+                really = sorted(r for r in old_by_rel if with_nl(old_by_rel[r]) != with_nl(new_by_rel[r]))
+                if touched_files != really:
+                    bad(L_FILES, 'the diff has sections for %r, the changed files with new contents are %r'
+                        % (touched_files, really))
+                for frm, to, hunks in sections:
+                    if frm not in old_by_rel:
+                        continue
+                    if to != moved(frm, ren_rel):
+                        bad(L_HDR, 'section %r -> %r, but the announced renames %r lead to %r'
+                            % (frm, to, ren_rel, moved(frm, ren_rel)))
+                    try:
+                        got = ''.join(apply_hunks(with_nl(old_by_rel[frm]), hunks))
+                    except DiffError as e:
+                        got = 'diff does not apply: %s' % e
+                    if got != ''.join(with_nl(new_by_rel[frm])):
+                        bad(L_DIFF_NEW, 'file %r: applied %r, new code %r' % (frm, got, new_by_rel[frm]))
+            for r, (code, d) in ((rel_of(p), v) for p, v in per_file.items()):
+                if r in old_by_rel and not d.strip() and with_nl(old_by_rel[r]) != with_nl(code):
+                    bad(L_DIFF_NEW, 'file %r: empty diff, new code %r' % (r, code))
+
+            # ---- text outside the rewritten nodes
+            own = '' if nopath else rel
+            new = new_by_rel.get(own)
+            if new is not None:
+                for r in new_by_rel:
+                    if r in old_by_rel:
+                        c = check_comments(Src(old_by_rel[r]), new_by_rel[r])
+                        if c:
+                            bad(L_COMMENT, 'file %r: %s; new code %r' % (r, c, new_by_rel[r]))
+                if kind in ('rename', 'inline') and eol == '\r\n' and re.search(r'(?<!\r)\n', new):
+                    bad(L_EOL, repr(new))
+                if kind == 'rename':
+                    if new.endswith(('\n', '\r')) != src.text.endswith(('\n', '\r')):
+                        bad(L_FINAL_NL, repr(new))
+                    cands = names_at(src, line, col)
+                    if cands:
+                        for r in new_by_rel:
+                            if r in old_by_rel and not any(new_by_rel[r].replace(name, c) == old_by_rel[r]
+                                                           for c in cands):
+                                bad(L_UNTOUCHED, 'file %r: putting %r back for the new name does not give the '
+                                    'original; new code %r' % (r, cands, new_by_rel[r]))
+                elif kind == 'inline':
+                    cands = names_at(src, line, col)
+                    if cands and src.toks is not None:
+                        touched = set()
+                        for t in src.toks:
+                            if t.type == tokenize.NAME and t.string in cands:
+                                touched |= logical_touched(src, t.start[0], t.start[0])
+                        msg = check_lines(src, new, touched)
+                        if msg:
+                            bad(L_UNTOUCHED, '%s; new code %r' % (msg, new))
+                else:
+                    res = None
+                    rng_ = info.get('exact') or info.get('lines')
+                    if rng_ is not None:
+                        stats['exact_checked'] += 1
+                        res = check_extract(src, new, name, rng_[0], rng_[1], kind)
+                    else:
+                        touched = None
+                        if cls in ('cursor', 'marked') and not kw:
+                            touched = cursor_touched(src, line, col)
+                        elif cls in ('range', 'marked') and valid:
+                            touched = selection_is_expression_part(src, line, col, kw)
+                        if touched is not None:
+                            msg = check_lines(src, new, touched)
+                            if msg:
+                                res = (L_UNTOUCHED, msg)
+                    if res is not None:
+                        bad(res[0], '%s; new code %r' % (res[1], new))
+
+            # ---- behaviour
+            check_behaviour = False
+            if baseline is not None and kind in behav and new is not None:
+                if kind == 'rename':
+                    cands = names_at(src, line, col)
+                    check_behaviour = bool(cands) and all(c in bound_names(src) for c in cands) and rel == main
+                elif kind == 'inline':
+                    check_behaviour = True
+                else:
+                    check_behaviour = bool(info.get('pure'))
+            if check_behaviour and not multi:
+                stats['behaviour_checked'] += 1
+                after = exec_source(new, path)
+                if after != baseline:
+                    bad(L_BEHAV, 'before %r, after %r, new code %r' % (baseline, after, new))
+
+            # ---- apply
+            if nopath:
+                try:
+                    guarded_apply(ref, empty)
+                    bad(L_NOPATH, 'no exception')
+                except jedi.RefactoringError:
+                    pass
+                except OutsideProject:
+                    stats['apply_skipped_outside'] += 1
+                except Exception:
+                    bad(L_NOPATH, traceback.format_exc(limit=-2))
+                if not disk_unchanged() or snapshot(empty):
+                    bad(L_UNANNOUNCED, 'apply() of a Script without path changed a project directory')
+                    put_back()
+                    restore(empty, {})
+                continue
+            if rng.random() < 0.25 and not (check_behaviour and multi):
+                continue        # inspect only
+            try:
+                outside = paths_outside(ref, work)
+            except Exception:
+                bad(L_INSPECT, traceback.format_exc(limit=-3))
+                continue
+            if outside:
+                # e.g. the name of a standard library module: never touch files outside the scratch project
+                stats['apply_skipped_outside'] += 1
+                continue
+            stats['applied'] += 1
+            try:
+                guarded_apply(ref, work)
+            except OutsideProject:
+                raise
+            except Exception:
+                bad(L_APPLY_EXC, traceback.format_exc(limit=-3))
+                put_back()
+                continue
+            after_disk = snapshot(work)
+            expected = {}
+            for r, data in before.items():
+                expected[moved(r, ren_rel)] = new_by_rel[r].encode(enc) if r in new_by_rel else data
+            if after_disk != expected:
+                for r in sorted(set(after_disk) | set(expected)):
+                    if after_disk.get(r) == expected.get(r):
+                        continue
+                    origin = [o for o in before if moved(o, ren_rel) == r]
+                    if origin and origin[0] in new_by_rel:
+                        # a changed file: announced text at the announced place
+                        if not ren_rel and r in after_disk:
+                            bad(L_APPLY, 'file %r: %r' % (r, after_disk[r][:300]))
+                        else:
+                            bad(L_AT_PATH, '%s exists=%r text=%r' % (r, r in after_disk, after_disk.get(r, b'')[:200]))
+                    elif origin and origin[0] != r:
+                        bad(L_RENAME, '%r is not at %r after apply(); files %r' % (origin[0], r, sorted(after_disk)))
+                    elif origin and r not in after_disk and any(
+                            r.split(os.sep)[0].startswith(os.path.splitext(f.split(os.sep)[0])[0]) for f, _ in ren_rel):
+                        bad(L_SIBLING, '%r is gone; files %r' % (r, sorted(after_disk)))
+                    else:
+                        bad(L_UNANNOUNCED, '%r: expected %r, found %r' % (
+                            r, expected.get(r, b'<absent>')[:120], after_disk.get(r, b'<absent>')[:120]))
+            for a, b in ren_rel:
+                if os.path.exists(os.path.join(work, a)) or not os.path.exists(os.path.join(work, b)):
+                    bad(L_RENAME, repr((a, b)))
+            try:
+                still = {rel_of(p): cf.get_new_code() for p, cf in changed.items()}
+            except Exception:
+                bad(L_INSPECT, 'after apply(): ' + traceback.format_exc(limit=-3))
+                still = new_by_rel
+            if still != new_by_rel:
+                bad(L_UNSTABLE, 'get_new_code() after apply(): %r' % (still,))
+            if check_behaviour and multi:
+                stats['behaviour_checked'] += 1
+                new_main = moved(main, ren_rel)
+                after = run_project(work, new_main)
+                if after != baseline:
+                    bad(L_BEHAV, 'before %r, after %r, files %r' % (baseline, after, sorted(after_disk)))
+            if len(samples) < 1 and new is not None:
+                samples.append({'kind': kind, 'args': [line, col], 'kwargs': kwargs, 'source': src.text, 'new': new})
+            put_back(after_disk)
+    finally:
+        shutil.rmtree(base, ignore_errors=True)
+    return {'violations': violations, 'stats': stats, 'samples': samples}
+
+
+def _check_programs_are_self_contained():
+    for spec in PROGRAMS:
+        own = {c for rel in spec['files'] for c in os.path.splitext(rel)[0].split('/')}
+        for rel, t in spec['files'].items():
+            for n in ast.walk(ast.parse(t.replace('{I}', ' '))):
+                mods = [a.name for a in n.names] if isinstance(n, ast.Import) else \
+                    [n.module or ''] if isinstance(n, ast.ImportFrom) else []
+                for m in mods:
+                    if m.split('.')[0] not in own:
+                        raise RuntimeError('SAFETY: generated program %s imports %r, which is not one of its own files; '
+                                           'applying a refactoring of such a name would touch real files'
+                                           % (spec['name'], m))
 
 
 def run(repo, seed, tier):
-    import jedi
+    _check_programs_are_self_contained()
+    rng = random.Random(seed)
+    variants = [(i, e, f, u) for i in ('    ', '\t', '  ') for e in ('\n', '\r\n') for f in (True, False)
+                for u in (False, True)]
+    thorough = tier != 'quick'
+    counts = {'cursor': {'names': 14, 'cursor': 5, 'oor': 2},
+              'extract': {'expr': 16, 'line_end': 4, 'stmts': 8, 'cursor': 6, 'range': 8, 'oor': 3}}
+    corpus_counts = {'cursor': {'names': 5, 'cursor': 2, 'oor': 1},
+                     'extract': {'expr': 6, 'line_end': 2, 'stmts': 3, 'cursor': 3, 'range': 3, 'oor': 1}}
+    if thorough:
+        counts = {k: {a: b * 3 for a, b in v.items()} for k, v in counts.items()}
+        corpus_counts = {k: {a: b * 2 for a, b in v.items()} for k, v in corpus_counts.items()}
+    jobs = []
+    for spec in PROGRAMS:
+        for v in (variants if thorough else rng.sample(variants, 7)):
+            jobs.append((spec, v, counts))
+    cvariants = [('', e, f, False) for e in ('\n', '\r\n') for f in (True, False)]
+    for spec in corpus_cases(repo):
+        for v in (cvariants if thorough else rng.sample(cvariants, 1)):
+            jobs.append((spec, v, corpus_counts))
+    jobs = [(seed, tier, repo, gi, spec, v, c) for gi, (spec, v, c) in enumerate(jobs)]
+    # longest groups first, results are put back into generation order
+    def size(i):
+        spec = jobs[i][4]
+        return sum(len(t) for t in spec['files'].values()) if 'files' in spec else len(spec['text'])
+    order = sorted(range(len(jobs)), key=lambda i: (-size(i), i))
+    ctx = multiprocessing.get_context('fork')
+    nproc = max(2, min(16, os.cpu_count() or 2))
+    with ctx.Pool(nproc, initializer=_init_worker, initargs=(os.environ['STANDIN_TMP'],)) as pool:
+        results = pool.map(run_group, [jobs[i] for i in order], chunksize=1)
+    by_index = dict(zip(order, results))
+    results = [by_index[i] for i in range(len(jobs))]
+
     violations = []
-    evaluations = 0
+    counts_by_label = {}
+    per_key = {}
+    stats = {}
     samples = []
-    variants = list(itertools.product(('    ', '\t'), ('\n', '\r\n'), (True, False)))
-    for (tmpl, kind, anchor, kw), (indent, eol, final_nl) in itertools.product(BASE, variants):
-        src = tmpl.replace('{I}', indent) + ('\n' if final_nl else '')
-        src = src.replace('\n', eol)
-        work = tempfile.mkdtemp(prefix='ref_', dir=os.environ['STANDIN_TMP'])
-        try:
-            path = os.path.join(work, 'prog.py')
-            with open(path, 'w', newline='') as f:
-                f.write(src)
-            rc0, out0 = run_prog(path)
-            idx = src.index(anchor.replace('\n', eol))
-            line = src.count(eol, 0, idx) + 1 if eol == '\n' else src[:idx].count('\r\n') + 1
-            col = idx - (src.rfind(eol, 0, idx) + len(eol)) if eol in src[:idx] else idx
-            kwargs = dict(kw)
-            ln = kwargs.pop('len', None)
-            if ln is not None:
-                kwargs['until_line'] = line
-                kwargs['until_column'] = col + ln
-            evaluations += 1
-            s = jedi.Script(src, path=path, project=jedi.Project(work))
-            try:
-                ref = getattr(s, kind)(line, col, **kwargs)
-            except jedi.RefactoringError:
-                continue
-            except Exception:
-                violations.append({'label': 'refactoring request raised something else than RefactoringError',
-                                   'input': repr((kind, src)), 'observed': traceback.format_exc(limit=3)})
-                continue
-            desc = repr({'kind': kind, 'indent': indent, 'eol': eol, 'final_newline': final_nl, 'source': src})
-            try:
-                changed = ref.get_changed_files()
-                if open(path, newline='').read() != src:
-                    violations.append({'label': 'file changed on disk before apply()', 'input': desc, 'observed': ''})
-                cf = list(changed.values())[0]
-                new = cf.get_new_code()
-                diff = cf.get_diff()
-                try:
-                    applied = ''.join(apply_unified_diff(with_nl(src), diff)) if diff.strip() else ''.join(with_nl(src))
-                except ValueError as e:
-                    applied = 'diff does not apply: %s' % e
-                if applied != ''.join(with_nl(new)):
-                    violations.append({'label': 'get_diff() does not transform the original into get_new_code()',
-                                       'input': desc, 'observed': 'applied %r, new code %r' % (applied, new)})
-                if ref.get_diff() != ''.join('rename from %s\nrename to %s\n' % r for r in ref.get_renames()) + diff:
-                    violations.append({'label': 'Refactoring.get_diff() is not renames + file diffs', 'input': desc,
-                                       'observed': ref.get_diff()[:200]})
-                # text outside the rewritten nodes: line endings and final newline state are preserved
-                # (extract_* insert a new statement; its own line end is new text, not preserved text)
-                if kind in ('rename', 'inline') and eol == '\r\n' and re.search(r'(?<!\r)\n', new):
-                    violations.append({'label': 'line endings are not preserved', 'input': desc, 'observed': repr(new)})
-                if kind in ('rename',) and new.endswith(('\n', '\r')) != src.endswith(('\n', '\r')):
-                    violations.append({'label': 'final newline state is not preserved', 'input': desc, 'observed': repr(new)})
-                ref.apply()
-                on_disk = open(path, newline='').read()
-                if on_disk != new:
-                    violations.append({'label': 'apply() did not write exactly get_new_code()', 'input': desc,
-                                       'observed': repr(on_disk[:200])})
-                rc1, out1 = run_prog(path)
-                if rc0 == 0 and (rc1, out1) != (rc0, out0):
-                    violations.append({'label': 'refactored program no longer compiles or behaves differently',
-                                       'input': desc, 'observed': 'rc %r out %r, new code %r' % (rc1, out1, new)})
-                if len(samples) < 2:
-                    samples.append({'kind': kind, 'source': src, 'new': new})
-            except Exception:
-                violations.append({'label': 'inspecting the refactoring raised', 'input': desc,
-                                   'observed': traceback.format_exc(limit=3)})
-        finally:
-            shutil.rmtree(work, ignore_errors=True)
-    # package rename: the announced target paths are where the files are after apply()
-    work = tempfile.mkdtemp(prefix='refp_', dir=os.environ['STANDIN_TMP'])
-    try:
-        files = {'pkg/__init__.py': 'VALUE = 1\n', 'pkg/sub/__init__.py': '', 'pkg/sub/deep.py': 'import pkg\nx = pkg.VALUE\n',
-                 'pkg/sub/more/__init__.py': '', 'pkg/sub/more/leaf.py': 'import pkg\ny = pkg.VALUE\n',
-                 'pkg_utils.py': 'import pkg\nz = pkg.VALUE\n', 'main.py': 'import pkg\nprint(pkg.VALUE)\n'}
-        for rel, text in files.items():
-            p = os.path.join(work, rel)
-            os.makedirs(os.path.dirname(p), exist_ok=True)
-            open(p, 'w').write(text)
-        evaluations += 1
-        main = os.path.join(work, 'main.py')
-        s = jedi.Script(files['main.py'], path=main, project=jedi.Project(work))
-        ref = s.rename(1, 7, new_name='newpkg')
-        changed = ref.get_changed_files()
-        diff = ref.get_diff()
-        announced = {}
-        for path, cf in changed.items():
-            announced[str(cf._to_path)] = cf.get_new_code()
-            hdr = '+++ %s' % os.path.relpath(str(cf._to_path), work)
-            if hdr not in diff:
-                violations.append({'label': 'diff header does not name the announced target path',
-                                   'input': 'package rename pkg -> newpkg', 'observed': '%r not in diff' % hdr})
-        ref.apply()
-        for to_path, text in announced.items():
-            if not os.path.exists(to_path) or open(to_path).read() != text:
-                violations.append({'label': 'after apply() a changed file is not at its announced path with the announced text',
-                                   'input': 'package rename pkg -> newpkg',
-                                   'observed': '%s exists=%r' % (os.path.relpath(to_path, work), os.path.exists(to_path))})
-        for frm, to in ref.get_renames():
-            if os.path.exists(str(frm)) or not os.path.exists(str(to)):
-                violations.append({'label': 'announced rename not performed', 'input': 'package rename pkg -> newpkg',
-                                   'observed': repr((str(frm), str(to)))})
-        if os.path.exists(os.path.join(work, 'newpkg_utils.py')) or not os.path.exists(os.path.join(work, 'pkg_utils.py')):
-            violations.append({'label': 'a sibling sharing the name prefix was moved', 'input': 'package rename pkg -> newpkg',
-                               'observed': sorted(os.listdir(work))})
-    except jedi.RefactoringError:
-        pass
-    except Exception:
-        violations.append({'label': 'package rename raised', 'input': 'package rename pkg -> newpkg',
-                           'observed': traceback.format_exc(limit=4)})
-    finally:
-        shutil.rmtree(work, ignore_errors=True)
-    seen = {}
+    for r in results:
+        for k, v in r['stats'].items():
+            stats[k] = stats.get(k, 0) + v
+        for s in r['samples']:
+            if len(samples) < 2:
+                samples.append(s)
+        for v in r['violations']:
+            counts_by_label[v['label']] = counts_by_label.get(v['label'], 0) + 1
+            key = (v['label'], v.pop('key'))
+            per_key[key] = per_key.get(key, 0) + 1
+            if per_key[key] <= 3:
+                violations.append(v)
+    # keep the reported list short but never drop a label
+    violations.sort(key=lambda v: (len(v['input']), v['input'], v['observed']))
+    ranked, seen = [], {}
     for v in violations:
-        seen.setdefault(v['label'], []).append(v)
+        seen[v['label']] = seen.get(v['label'], 0) + 1
+        if seen[v['label']] <= 6:
+            ranked.append((seen[v['label']], len(ranked), v))
+    kept = [v for _, _, v in sorted(ranked, key=lambda t: t[:2])[:60]]       # the smallest of every label first
     return {'name': 'C07.refactoring-results', 'contract': 'C07.refactoring',
-            'evaluations': evaluations, 'distinct_nontrivial': evaluations,
-            'rule': '%d program templates (inline in nested suites, rename with comments/blank lines, extract variable / '
-                    'function) x indentation (spaces, tabs) x line ending (LF, CRLF) x final newline (yes, no)' % len(BASE),
-            'samples': samples, 'violations': violations[:300],
-            'violation_counts': {k: len(v) for k, v in seen.items()}}
+            'evaluations': stats.get('evaluations', 0), 'distinct_nontrivial': stats.get('succeeded', 0),
+            'rule': '%d generated projects (nested suites, class with bound/static/class methods, multi-line bracketed '
+                    'expressions with comments, module level with comments/semicolons/backslash continuation, tuples and '
+                    'attributes, closures/comprehensions/f-strings, loops/try/yield, one- and two-line, empty and '
+                    'comment-only sources, native unicode identifiers, a two-module project, a package tree) x '
+                    'indentation (4 spaces, tab, 2 spaces) x line ending (LF, CRLF) x final newline (yes, no) x '
+                    'identifiers (ascii, unicode), %s; plus the %d corpus inputs of test/refactor/*.py x (LF, CRLF) x '
+                    'final newline, %s. Per rendered project a seeded random.Random sample of requests: rename/inline at '
+                    'identifier starts/middles/ends, arbitrary token positions and positions outside the source; '
+                    'extract_variable/extract_function at every-kind ranges: Load-context expression nodes of Python\'s '
+                    'ast (until_line+until_column, until_column only, bare until_line), expressions reaching the end of '
+                    'their line with a bare until_line, runs of 1-3 whole-line statements, bare cursors, random token '
+                    'ranges, out-of-range lines/columns; 70%% of the successful results are applied, 8%% use a Script '
+                    'without path, 70%% share one Script per file (history). Oracles: strict unified-diff parser and '
+                    'applier against get_new_code() for every changed file, diff sections/renames vs '
+                    'get_changed_files()/get_renames(), byte snapshot of the project directory before the request, after '
+                    'inspection and after apply() against the announced contents and own path arithmetic for renames, '
+                    'textual inversion of the rewrite (rename: replace the fresh name back; extract: new code == source '
+                    'with generated definition lines inserted at a line start and exactly the requested range replaced), '
+                    'untouched physical lines kept in order, every comment token (Python tokenize) kept, CRLF kept for '
+                    'rename/inline, execution of the program before/after for requests that must keep the behaviour, '
+                    'and only RefactoringError may escape, ValueError only if a coordinate lies outside the text. '
+                    '(%d succeeded, %d applied, %d exact inversions, %d executions, %d applies skipped because a path lay outside '
+                    'the scratch project, %d typeshed artefacts ignored)'
+                    % (len(PROGRAMS), 'all 24 renderings' if thorough else '7 sampled renderings each',
+                       len(corpus_cases(repo)), 'all 4' if thorough else '1 sampled', stats.get('succeeded', 0),
+                       stats.get('applied', 0), stats.get('exact_checked', 0), stats.get('behaviour_checked', 0),
+                       stats.get('apply_skipped_outside', 0), stats.get('sandbox_artefacts', 0)),
+            'samples': samples, 'violations': kept, 'violation_counts': counts_by_label}
